@@ -165,4 +165,56 @@ def gitFold (l : List Leaf) : Option DStatus :=
   else if l.all (fun x => x.1 == .ignored .precious) then some (.ignored .precious)
   else none
 
+/-! ## (3) what `git status --porcelain --ignored -unormal` lists -/
+
+/-- an untracked / ignored line: path and status -/
+abbrev Shown := Bytes × DStatus
+
+mutual
+/-- the `??` and `!!` lines below directory `p` that one directory entry gives rise to
+(`read_directory_recursive` with `DIR_SHOW_IGNORED_TOO`, `-unormal`): a file is listed by
+`treat_path`'s verdict; an ignored directory and a nested repository are listed as ONE entry and
+not entered; a directory the index knows is entered; any other directory is shown as ONE entry if
+`gitFold` says so — and then what is listed inside it with a DIFFERENT status (the ignored files of
+an untracked directory) is still listed — and entered otherwise. -/
+def gitShow (p : Bytes) : Tree → List Shown
+  | .file name f =>
+    match gitTreatPath f with
+    | .excluded k => [(joinPath p name, .ignored k)]
+    | .untracked _ => [(joinPath p name, .untracked)]
+    | _ => []
+  | .dir name f cs =>
+    match gitTreatPath f with
+    | .none => []
+    | .excluded k => [(joinPath p name, .ignored k)]
+    | .untracked true => [(joinPath p name, .untracked)]
+    | .untracked false =>
+      (match gitFold (leavesL cs) with
+        | some s => (joinPath p name, s) :: (gitShowL (joinPath p name) cs).filter (fun x => x.2 != s)
+        | none => gitShowL (joinPath p name) cs)
+    | .recurse => gitShowL (joinPath p name) cs
+def gitShowL (p : Bytes) : List Tree → List Shown
+  | [] => []
+  | t :: ts => gitShow p t ++ gitShowL p ts
+end
+
+/-- the lines of the worktree column: path and letter of every entry that is not clean -/
+inductive GLine
+  | change (path : Bytes) (l : Letter)
+  | other (path : Bytes) (s : DStatus)
+  deriving Repr, DecidableEq
+
+/-- a line of gitoxide's report as git prints it -/
+def lineOf : Line → GLine
+  | .change p s => .change p (letterOf s)
+  | .other p s => .other p s
+
+/-- everything `git status --porcelain --ignored -unormal` prints for the worktree (no submodules,
+no rename detection): one line per changed index entry, then the untracked and ignored entries -/
+def gitReport (w : Worktree) : List GLine :=
+  (w.entries.filterMap fun x =>
+    let l := gitLetter x.e x.l w.tsS w.o x.hashDiffers
+    if l = .clean then none else some (.change x.path l)) ++
+  (gitShowL [] w.tree).map fun x => .other x.1 x.2
+
 end GixModel.Spec.C49
